@@ -117,6 +117,8 @@ void release_parked();      // let parked background threads run to their end
 void harness_point(int kind, const void* addr, int size, int line); // harness-level shared cell access
 void harness_wait(const void* addr, int line);                      // harness-level spin wait
 bool active();              // an execution is in progress on this thread
+bool tick(int role, int n); // let library thread `role` (0 epoch, 1 gc) pass n sleeps, park it again; false if it has exited
+bool role_alive(int role);
 long points_of(int tid);
 // event callback (RETIRE etc.), invoked on the calling thread
 extern void (*event_cb)(int tid, int ev, const void* obj, unsigned long long a, unsigned long long b);
